@@ -11,8 +11,8 @@ structure Var where
   items : List Nat
 
 structure St where
-  q : Quirks := {}
-  sq : SliceBuf.Quirks := {}
+  q : Quirks := current
+  sq : SliceBuf.Quirks := SliceBuf.current
   vars : List Var := []
 
 /-- nominal address of the pointer variable (a user-space stack address; only "4096 ≤ ptr < 2^47" matters
